@@ -1,6 +1,6 @@
 package main
 
-// Axiom probes (DESIGN 2.12): the SMT universe also contains values no Go program can
+// Axiom probes (DESIGN 2.6): the SMT universe also contains values no Go program can
 // build - strings of negative length, strings with bytes outside [0,len), lists whose
 // tail is not empty.  A quantified axiom that is only true of well-formed values but is
 // asserted for ALL values makes the whole theory inconsistent, and an inconsistent
